@@ -8,6 +8,7 @@ import Dashu.Proofs.Panic.Farey
 import Dashu.Proofs.Panic.LnLoop
 import Dashu.Proofs.Panic.Utf8
 import Dashu.Proofs.Panic.Guards5
+import Dashu.Proofs.Panic.UlpSharp
 /-
   C16 — operations terminate and panic only where the documentation says so.   PARTIAL.
 
@@ -122,6 +123,38 @@ theorem fbig_ulp_guard_counterexample :
     documented 64 .fUlp [.flt ⟨2, 3, -5, 2 ^ 63, 'Z'⟩] = some .exponentOverflow := guardFUlp_counterexample
 
 example : (⟨2, 3, 0, 5, 'Z'⟩ : FArg).canonical = true ∧ (⟨2, 3, 0, 5, 'Z'⟩ : FArg).moderate = true := by decide +kernel
+
+/- round 7: the hypothesis `prec ≤ 2^62` of `fbig_ulp_guard_partial` weakened to the WEAKEST possible one.  `ulpClauseSilent a` :=
+   `prec = 0 ∨ a infinite ∨ isize::MIN ≤ exp + digits − prec` (the documented underflow clause does not apply); every precision
+   up to usize::MAX is admitted.  FULL STATEMENT (false for the current code): the same without `hs`. -/
+theorem fbig_ulp_guard_sharp_partial (W : Nat) (a : FArg) (k : Kind) (hc : a.canonical) (hm : a.moderate)
+    (hs : ulpClauseSilent a) :
+    guardFUlp a = .error k ↔ documented W .fUlp [.flt a] = some k := guardFUlp_iff_sharp W a k hc hm hs
+
+/-- `hs` is necessary on EVERY input, not only at the witness of `fbig_ulp_guard_counterexample`: on canonical moderate operands
+    the guard of `FBig::ulp` agrees with the documentation for all kinds iff the underflow clause is silent; outside, the code
+    checks nothing where ExponentOverflow is documented (= the input class of finding float_precision_isize_cast, f.ulp) -/
+theorem fbig_ulp_guard_exact_class (W : Nat) (a : FArg) (hc : a.canonical) (hm : a.moderate) :
+    ((∀ k : Kind, guardFUlp a = .error k ↔ documented W .fUlp [.flt a] = some k) ↔ ulpClauseSilent a) ∧
+    (¬ ulpClauseSilent a → guardFUlp a = .ok () ∧ documented W .fUlp [.flt a] = some .exponentOverflow) :=
+  ⟨guardFUlp_iff_exactly W a hc hm, guardFUlp_not_silent W a hc hm⟩
+
+/-- closed form: `fbig_ulp_guard_partial` with the bound 2^62 raised to 2^63 − 2^61 = 3·2^61 -/
+theorem fbig_ulp_guard_prec_bound_partial (W : Nat) (a : FArg) (k : Kind) (hc : a.canonical) (hm : a.moderate)
+    (hp : a.prec ≤ 3 * 2 ^ 61) :
+    guardFUlp a = .error k ↔ documented W .fUlp [.flt a] = some k :=
+  guardFUlp_iff_sharp W a k hc hm (ulpClauseSilent_of_prec_le a hm hp)
+
+-- non-vacuity: precisions far above the old bound 2^62 meet the hypotheses (isize::MAX with a finite operand; usize::MAX with an
+-- infinity; 3·2^61 at the most negative moderate exponent); 2^63 + 2 is the last silent precision for 3·2^0, 2^63 + 3 is not
+example : (⟨2, 3, 0, 2 ^ 63 - 1, 'Z'⟩ : FArg).canonical = true ∧ (⟨2, 3, 0, 2 ^ 63 - 1, 'Z'⟩ : FArg).moderate = true ∧
+    ulpClauseSilent ⟨2, 3, 0, 2 ^ 63 - 1, 'Z'⟩ := by decide +kernel
+example : (⟨2, 3, 0, 2 ^ 63 + 3, 'Z'⟩ : FArg).canonical = true ∧ (⟨2, 3, 0, 2 ^ 63 + 3, 'Z'⟩ : FArg).moderate = true ∧
+    ulpClauseSilent ⟨2, 3, 0, 2 ^ 63 + 2, 'Z'⟩ ∧ ¬ ulpClauseSilent ⟨2, 3, 0, 2 ^ 63 + 3, 'Z'⟩ := by decide +kernel
+example : (⟨10, 0, 1, 2 ^ 64 - 1, 'H'⟩ : FArg).canonical = true ∧ (⟨10, 0, 1, 2 ^ 64 - 1, 'H'⟩ : FArg).moderate = true ∧
+    ulpClauseSilent ⟨10, 0, 1, 2 ^ 64 - 1, 'H'⟩ := by decide +kernel
+example : (⟨2, 1, -(2 ^ 61), 3 * 2 ^ 61, 'Z'⟩ : FArg).canonical = true ∧
+    (⟨2, 1, -(2 ^ 61), 3 * 2 ^ 61, 'Z'⟩ : FArg).moderate = true := by decide +kernel
 
 -- guards that exist since the fix: commits c27ca7f, 65edb1e, 0ffa05d, d9f681e, b0e87a3 (full statements for the patched code)
 
